@@ -600,6 +600,7 @@ spifconf_shell_expand(spif_charptr_t s)
                   }
                   if (l) {
                       libast_print_error("parse error in file %s, line %lu:  Mismatched parentheses\n", file_peek_path(), file_peek_line());
+                      FREE(Command);
                       return (spif_charptr_t) NULL;
                   }
                   *(--tmp1) = 0;
